@@ -643,24 +643,32 @@ def shrink_candidates(case: Case):
     return out
 
 
-def shrink(ctx, case, sig, session, F, exp, rounds=12):
+def dev_kind(v, info):
+    """coarse kind of a deviation: which exception, or a differing result"""
+    if v[5] == "1":
+        return "raise:" + (info.get("exc") or "?").split(":")[0]
+    return "differs"
+
+
+def shrink(ctx, case, kind, tag, session, F, exp, rounds=8):
+    """greedy: smallest variant that is still a deviation of the same kind (the signature is recomputed afterwards)"""
     cur = case
     for k in range(rounds):
-        cands = shrink_candidates(cur)[:120]
+        cands = shrink_candidates(cur)[:60]
         if not cands:
             break
-        _, infos, res = evaluate(ctx, f"c07shrink{abs(hash(sig)) % 10000}_{k}", cands, session, F, exp)
+        _, infos, res = evaluate(ctx, f"c07shrink{tag}_{k}", cands, session, F, exp)
         nxt = None
         for c, info, v in zip(cands, infos, res):
             if v is None or len(v) != 8:
                 continue
             bad = v[7] == "1" and (v[5] == "1" or v[2] != "1")
-            if bad and signature(c, v, info) == sig:
-                nxt = (c, info, v)
+            if bad and dev_kind(v, info) == kind:
+                nxt = c
                 break
         if nxt is None:
             break
-        cur = nxt[0]
+        cur = nxt
     return cur
 
 
@@ -762,15 +770,25 @@ def run(ctx: core.Ctx):
     ctx.log(f"{len(cases)} cases, {n_raise} raised, {n_invalid} outside Spark's domain, deviations: "
             + ", ".join(f"{s} x{len(l)}" for s, l in devs.items()))
     known = {k["signature"] for k in ctx.known if k.get("status", "known") == "known"}
+    groups = []
     for sig, lst in devs.items():
         lst.sort(key=lambda x: (len(x[0].text()), sum(len(r) for _, r in x[0].tables)))
+        groups.append((sig, lst))
+    groups.sort(key=lambda g: (g[0] in known, len(g[1][0][0].text())))
+    reported, n_shrunk = set(), 0
+    for sig, lst in groups:
         c, v, info, it = lst[0]
-        if sig not in known:
-            small = shrink(ctx, c, sig, session, F, exp)
+        if sig not in known and n_shrunk < 3:
+            n_shrunk += 1
+            small = shrink(ctx, c, dev_kind(v, info), n_shrunk, session, F, exp)
             if small is not c:
-                its, infs, rs = evaluate(ctx, f"c07min{abs(hash(sig)) % 10000}", [small], session, F, exp)
+                its, infs, rs = evaluate(ctx, f"c07min{n_shrunk}", [small], session, F, exp)
                 if rs[0] is not None and len(rs[0]) == 8:
                     c, v, info, it = small, rs[0], infs[0], its[0]
+                    sig = signature(c, v, info)
+        if sig in reported:
+            continue
+        reported.add(sig)
         d = describe(c, v, info, it)
         d["occurrences_in_this_run"] = len(lst)
         d["spark_spec_answer"] = ctx.coq_eval(
